@@ -119,7 +119,14 @@ impl GenCfg {
             }
         }
         // shape bias: random attachment alone almost never gives a node 10 children or depth 10
-        let shape = match if max_live >= 600 && rng.coin() { 2 } else { rng.below(10) } {
+        let shape = match if max_live >= 600 && rng.coin() {
+            2
+        } else if huge && prop == "C10" && rng.coin() {
+            // long top-level chains are where the sibling iterators find their ends by walking
+            4
+        } else {
+            rng.below(10)
+        } {
             0 | 1 => 1u8,
             2 | 3 => 2,
             4 => 3,
@@ -339,6 +346,12 @@ impl GenCfg {
                     w[k as usize] = w[k as usize].min(1);
                 }
                 w[K::ObsPull as usize] = w[K::ObsPull as usize].min(4);
+            }
+            if shape == 3 {
+                // chain-shaped large runs: many parentless nodes, linked into long top-level chains
+                w[K::New as usize] *= 3;
+                w[K::Insert as usize] = w[K::Insert as usize].max(24) * 2;
+                w[K::RemoveSubtree as usize] = w[K::RemoveSubtree as usize].min(1);
             }
             if shape == 2 && max_live >= 600 {
                 w[K::AppendValue as usize] *= 3;
@@ -577,12 +590,15 @@ impl Gen {
                     slow: rng.chance(1, 3),
                 }
             }
-            K::Insert if self.cfg.shape == 3 && rng.coin() && m.n_live >= 2 => {
+            K::Insert if self.cfg.shape == 3 && rng.chance(3, 4) && m.n_live >= 2 => {
                 // grow top-level sibling chains: a parentless target, insert_after / insert_before
                 let live = m.live_keys();
-                let roots: Vec<Key> = live.iter().copied().filter(|k| m.parent(*k).is_none()).collect();
-                let a = *rng.pick(&roots);
-                let b = *rng.pick(&live);
+                // a member of the longest chain; next to it goes a parentless singleton if there is
+                // one (the chain grows by one), any live node otherwise
+                let longest = m.chains.values().max_by_key(|c| c.len()).cloned().unwrap_or_default();
+                let a = if longest.is_empty() { *rng.pick(&live) } else { *rng.pick(&longest) };
+                let singles: Vec<Key> = m.chains.values().filter(|c| c.len() == 1 && c[0] != a).map(|c| c[0]).collect();
+                let b = if !singles.is_empty() && rng.chance(3, 4) { *rng.pick(&singles) } else { *rng.pick(&live) };
                 Op::Insert {
                     kind: if rng.coin() { Kind::After } else { Kind::Before },
                     checked: rng.chance(self.cfg.p_checked as u64, 100),
@@ -721,7 +737,14 @@ impl Gen {
             K::Clear => Op::Clear,
             K::ObsTraverse => Op::ObsTraverse,
             K::ObsPull => {
-                let x = self.pick_node(rng, m, false).unwrap();
+                let mut x = self.pick_node(rng, m, false).unwrap();
+                if self.cfg.shape == 3 && rng.coin() {
+                    // an end (or near-end) member of the longest top-level chain
+                    if let Some(c) = m.chains.values().max_by_key(|c| c.len()) {
+                        let i = rng.usize_below(c.len().min(3));
+                        x = if rng.coin() { c[i] } else { c[c.len() - 1 - i] };
+                    }
+                }
                 // bias towards the iterators and nodes that matter: siblings of parentless nodes
                 let it = rng.below(3) as u8;
                 let list_len = m.list(m.n(x).loc).len();
